@@ -392,6 +392,43 @@ class C03(Check):
                     self.extra_cov["adversarial_call_probes"] = n5
                     return
         self.extra_cov["adversarial_call_probes"] = n5
+        # (6) a structured call whose ARGUMENT NAMES collide with what the engine's own helpers might take as options
+        #     (tool arguments and internal options must not share a namespace): the tool outside the grant never runs
+        n6 = 0
+        words = ["precleared", "skip_check", "checked", "force", "allowed", "allowed_capabilities", "self", "tool", "tool_name",
+                 "name", "args", "kwargs", "call", "capabilities", "required_capabilities", "trusted", "validate", "check",
+                 "silent", "pathway", "precheck", "_precleared", "bypass", "grant", "as_admin"]
+        for w in words:
+            for val in (True, 1, "yes", None):
+                for entry in ("call", "loop"):
+                    ran = []
+                    try:
+                        m = Mitochondria(silent=True, allowed_capabilities={caps[0]}, max_ros=1e9)
+                        m.engulf_tool(SimpleTool("wire_money", "d", lambda *a, **k: ran.append("wire_money") or 1,
+                                                 required_capabilities={caps[3]}))
+                        t = MC.ToolStub("wipe", {caps[2]}, "const", [], MC.Interner(), "capabilities")
+                        t.execute = (lambda *a, **k: ran.append("wipe") or 1)
+                        m.engulf_tool(t)
+                        for nm in ("wire_money", "wipe"):
+                            if entry == "call":
+                                m.execute_tool_call(ToolCall(id="1", name=nm, arguments={w: val}))
+                                m.execute_tool_call(ToolCall(id="2", name=nm, arguments={w: val, "x": 1}))
+                            else:
+                                Nucleus(provider=FakeProvider([[{"name": nm, "args": {w: val}}]])).transcribe_with_tools(
+                                    "p", m, max_iterations=2)
+                    except BaseException as e:  # noqa
+                        ran.append("raised:" + type(e).__name__)
+                    n6 += 1
+                    bad = [x for x in ran if not x.startswith("raised")]
+                    if bad:
+                        self.violations.append(Violation(
+                            "C03/disallowed-tool-ran",
+                            f"a structured call carrying the argument {w}={val!r}, entry point '{entry}': tool bodies {bad} ran "
+                            f"although their declarations are not within the allowed set",
+                            case={"argument_name_probe": w, "value": repr(val), "entry": entry}))
+                        self.extra_cov["argument_name_probes"] = n6
+                        return
+        self.extra_cov["argument_name_probes"] = n6
 
     def exhaustive_cases(self):
         """One LLM turn with several tool calls: every order of a disallowed and an allowed call, with every pattern of
